@@ -39,7 +39,8 @@ ASSUMPTIONS = [
     "builds are atomic per-target steps; the taint store is the local cache backend",
 ]
 
-FAMILIES_QUICK = [("taint", 16, {}), ("nocache", 12, {}), ("disabled", 10, {}), ("taint", 5, {"minimal": True})]
+FAMILIES_QUICK = [("taint", 9, {}), ("nocache", 7, {}), ("disabled", 6, {}), ("taintdis", 7, {}), ("tool", 6, {}),
+                  ("outless", 5, {"minimal": True}), ("taint", 4, {"minimal": True}), ("nocache", 4, {"minimal": True})]
 FAMILIES_THOROUGH = [(f, n * 15, kw) for f, n, kw in FAMILIES_QUICK]
 
 
@@ -58,7 +59,9 @@ def run(ctx):
     ctx.coverage["rule"] = ("layered DAGs of 2-6 targets with no-cache tags at random positions (p=0.3); histories mixing edits, "
                             "`grog taint` of one label or //..., builds with random selections, --enable-cache=false builds; families: "
                             + ", ".join("%s%s x%d" % (f, "(minimal)" if kw.get("minimal") else "", n) for f, n, kw in fams) +
-                            " + output-swap of a no-cache dependency; non-trivial = distinct history with >=2 builds, one executing and one with a hit")
+                            " + output-swap of a no-cache dependency; taint patterns also cover a target together with one of its dependencies or a whole "
+                            "package; taintdis = cache-disabled build while tainted; outless = 40% targets without outputs (also no-cache) under minimal; "
+                            "tool = a no-cache target whose only output is a script that is also its input, with a cached dependant; non-trivial = distinct history with >=2 builds, one executing and one with a hit")
     recs = H.run_both(ctx, hists, "c13")
     if recs is None:
         return
@@ -86,11 +89,26 @@ def run(ctx):
                               {"kind": "oracle", "oracle": "real clean build", "history": h, "described": H.describe(h), "detail": fails[0]},
                               signature="nocache-output-swap-not-propagated")
             continue
+        if "tool" in h.get("tags", []):
+            # a (no-cache) target whose bin_output is also its input: an edit of the script must reach the dependants
+            fails, _ = H.clean_oracle(ctx, h, r["real"], "c13clean", which="all")
+            if fails:
+                cnt["oracle_failures"] += 1
+                small = H.truncate(h, fails[0]["build"] + 1)
+                ctx.violation("a dependant of a re-executed target whose output changed was not invalidated (stale output after a successful build)",
+                              {"kind": "oracle", "oracle": "real clean build", "history": small, "described": H.describe(small), "detail": fails[0]},
+                              signature="dependant-not-invalidated-although-output-changed")
         for b in H.walk(h, r["real"]):
             o, ws, s = b["obs"], b["ws"], b["step"]
             sel = H.selected(ws, s["patterns"])
             ex = set(o["executed"])
             pre_t = set(o["pre_tainted"])
+            # `grog taint <patterns>` must have marked every target the patterns select
+            for l in H.matched_targets(ws, b["taints_since"]):
+                if l not in pre_t and l in ws["targets"]:
+                    cnt["taint_cmds_checked"] = cnt.get("taint_cmds_checked", 0) + 1
+                    fail("`grog taint` did not taint a target its patterns select (the next build serves it from the cache)", h, b,
+                         "taint-command-skipped-selected-target", target=l, patterns=b["taints_since"])
             # dependencies of l all succeeded <=> l was reached; with keep-going and no failing commands in these families every selected target is reached
             if not o["ok"]:
                 continue
